@@ -205,6 +205,10 @@ def t_chain_commons(E, preserve_all, new_size):
     litptr = E.new(strings.String, None, vals)
     E.call(litptr.from_pointer, 2, code_start + 10)
     E.call(ds.scalars.set, b'L$', litptr)
+    # a string-valued DEF FN leaves a bookkeeping scalar whose "descriptor" is a code pointer, not a string
+    fnptr = E.new(strings.String, None, vals)
+    E.call(fnptr.from_pointer, E.int('fn pointer lo', 0, 255), E.int('fn pointer hi', 0, 255))
+    E.call(ds.scalars.set, b'\xc1$', fnptr)
     s0 = _strval(E, ds, b'S$')
     l0 = _strval(E, ds, b'L$')
     E.prove(same_bytes(l0, list(to_cells(lit))), 'setup: L$ reads the program literal')
